@@ -47,6 +47,15 @@ def _cmp_multi_index(a, b):
         else:
             # Both are Index, no decision, do not depend on count!
             pass
+    # No decision on the common prefix: order by length, so that a
+    # multi-index is not "equal" to all of its extensions (zip()
+    # truncates, which made cmp_expr intransitive: A[0,1] > B[0] >
+    # C[0,2] > A[0,1]).
+    x, y = len(a._indices), len(b._indices)
+    if x < y:
+        return -1
+    elif x > y:
+        return 1
     # Failed to make a decision, return 0 by default
     # (this does not mean equality, it could be e.g.
     # [i,0] vs [j,0] because the counts of i,j cannot be used)
